@@ -458,7 +458,7 @@ PROPS["C16"] = {
     "post": _c16_post,
     "quick_budget_s": 90,
     "thorough_budget_s": 900,
-    "floors": {"any": {"history-with-removals:ok": 500, "distinct-hash-orders-observed": 2, "labels-compared": 300, "composition:ok": 300,
+    "floors": {"any": {"multi-fault:diagnostic": 30, "history-with-removals:ok": 500, "distinct-hash-orders-observed": 2, "labels-compared": 300, "composition:ok": 300,
                        "document:printed": 300, "document:diagnostic": 300, "fixture:encoded": 100, "fixture:failed": 400}},
     "rule": "Every one of N fresh worker processes (8 quick / 24 thorough; each with its own std RandomState seeds) runs the same "
             "inputs: (a) generated compositions (3-8 instantiations of few packages so that many same-rank nodes exist, many "
